@@ -254,6 +254,51 @@ def run_cases(ctx, exe, ds, cases):
     return results
 
 
+SUBSETS = ["K", "D", "F", "KD", "KF", "DF", "KDF"]
+
+
+def slot_dumps(ctx, exe, mexe, ds):
+    """structural tie: the slots of the real method implementation object (initialize -> by-value cast -> method
+    object, read through `#define protected public`) against the model's [downstream], for every subset"""
+    import re
+    n_ok = 0
+    r = ctx.run(exe, data_line(ds) + "".join("SLOTS %s\n" % s for s in SUBSETS), timeout=120)
+    blocks = [b for b in r.out.split("SEND") if "S " in b]
+    mr = ctx.run(mexe, "".join("SLOTS %s\n" % s for s in SUBSETS), timeout=120) if mexe else None
+    mlines = [l for l in mr.out.splitlines() if l.startswith("S ")] if mr else []
+    if len(blocks) != len(SUBSETS):
+        ctx.mismatch({"slots": "harness"}, "harness answered %d of %d SLOTS requests: %s" % (len(blocks), len(SUBSETS), r.err[-300:]))
+        return 0
+    for i, sub in enumerate(SUBSETS):
+        lines = [l.strip() for l in blocks[i].splitlines() if l.startswith("S ")]
+        given = next((l for l in lines if l.startswith("S given")), None)
+        slots = next((l for l in lines if l.startswith("S slots")), None)
+        if given is None or slots is None:
+            ctx.mismatch({"slots": sub}, "harness could not dump the slots for subset %s: %s" % (sub, lines[:2]))
+            continue
+        g = dict(kv.split("=", 1) for kv in given.split()[2:])
+        sl = dict(kv.split("=", 1) for kv in slots.split()[2:])
+        # identity: every slot holds (a copy of) the very object that was handed in, wrappers wrap their own slot
+        want = {"kernel": g["kernel"], "distance": g["distance"], "features": g["features"],
+                "plain_distance": "PlainDistance(%s)" % g["distance"], "kernel_distance": "KernelDistance(%s)" % g["kernel"],
+                "begin": "1", "end": "1", "n": str(ds["N"])}
+        bad = {k: (sl.get(k), v) for k, v in want.items() if sl.get(k) != v}
+        if bad:
+            ctx.violation({"data": ds, "slots": sub, "observed": sl, "given": g},
+                          "the method implementation object does not hold the caller's objects in their own slots "
+                          "(subset %s): %s" % (sub, bad))
+            continue
+        if mlines and i < len(mlines):
+            mine = re.sub(r"#\d+", "", " ".join("%s=%s" % (k, sl[k]) for k in
+                          ("kernel", "distance", "features", "plain_distance", "kernel_distance", "begin", "end")))
+            theirs = mlines[i][len("S slots "):].strip()
+            if mine != theirs:
+                ctx.mismatch({"slots": sub}, "slot dump differs from the model: implementation [%s] model [%s]" % (mine, theirs))
+                continue
+        n_ok += 1
+    return n_ok
+
+
 def impl_traits(ctx, exe):
     """is_dummy<T>::value of the library's callback classes, as the compiler sees it"""
     r = ctx.run(exe, "TRAITS\n", timeout=60)
@@ -616,7 +661,7 @@ def evaluate(ctx, exe, mexe, needs, datasets, tier, rng, stats, samples):
             cases += cases_for(m, needs.get(m, ""), ds, params, tier, rng)
         results = run_cases(ctx, exe, ds, cases)
         if any(r["kind"] == "NOTBUILT" for r in results):      # fallback build without the raw eigen family
-            keep = [i for i, r in enumerate(results) if not (r["kind"] == "NOTBUILT" and cases[i]["fam"] == "E")]
+            keep = [i for i, r in enumerate(results) if not (r["kind"] == "NOTBUILT" and cases[i]["fam"] in ("E", "X"))]
             cases, results = [cases[i] for i in keep], [results[i] for i in keep]
         model = run_model(ctx, mexe, [(c["m"], c["order"], model_entry(c)) for c in cases]) if mexe else None
         judge(ctx, ds, cases, results, needs, model, stats)
@@ -766,7 +811,9 @@ def _run(ctx, restore):
         for flag in ("callback_classes_ok", "wrappers_ok", "derefs_ok", "dispatch_ok"):
             if summ["flags"].get(flag) == "0":
                 ctx.note("regenerated tables: decider %s is false" % flag)
-    n += evaluate(ctx, exe, mexe, needs, plan(ctx, ctx.tier, rng), ctx.tier, rng, stats, samples)
+    plans = plan(ctx, ctx.tier, rng)
+    slots_ok = slot_dumps(ctx, exe, mexe, plans[0][0])
+    n += evaluate(ctx, exe, mexe, needs, plans, ctx.tier, rng, stats, samples)
     # search phase (CONVENTIONS section 3.2): something is no longer shown and no failing input yet
     if ctx.is_unshown() and not ctx.has_violation():
         ctx.note("search phase: proof / translator / correspondence no longer checks; running the thorough plan")
@@ -812,6 +859,7 @@ def _run(ctx, restore):
                "over_declaration_reported_not_judged": over,
                "needs_flags_read_from_library": needs,
                "sanitizer_pass": san,
+               "slot_dumps_equal_to_model": "%d of %d subsets" % (slots_ok, len(SUBSETS)),
                "is_dummy_read_from_library": traits,
                "model_deciders_on_regenerated_tables": (summ or {}).get("flags", {}),
                "traces_validated_against_impl": n})
